@@ -530,3 +530,28 @@ Proof.
   - symmetry. apply not_true_is_false. intros H. apply existsb_exists in H as [y [Hy Hxy]]. apply Heq in Hxy. subst y.
     apply In_sel in Hy as [w [Hw Ha]]. rewrite (NoDup_fst_unique t x v w Hnd Hin Hw) in Ea. congruence.
 Qed.
+
+(* ---------- every literal of a list of builder calls is a variable of 1..n (or its negation) ---------- *)
+Definition irs_in_range (n : Z) (l : list ir) : Prop :=
+  forall i x, In i l -> In x (ir_lits i) -> 1 <= Z.abs x <= n.
+Lemma irs_in_range_app n l1 l2 : irs_in_range n l1 -> irs_in_range n l2 -> irs_in_range n (l1 ++ l2).
+Proof. intros H1 H2 i x Hi. apply in_app_or in Hi as [Hi|Hi]; eauto. Qed.
+Lemma irs_in_range_nil n : irs_in_range n []. Proof. intros i x []. Qed.
+Lemma irs_in_range_map {A} n (f : A -> ir) l :
+  (forall y x, In y l -> In x (ir_lits (f y)) -> 1 <= Z.abs x <= n) -> irs_in_range n (map f l).
+Proof. intros H i x Hi Hx. apply in_map_iff in Hi as [y [<- Hy]]. eauto. Qed.
+Lemma ids_where_range {I} (p : I -> bool) (l : list I) x : In x (ids_where p (number 0 l)) -> 1 <= Z.abs x <= len l.
+Proof.
+  unfold ids_where. intros H. apply in_map_iff in H as [e [<- He]]. apply filter_In in He as [He _].
+  apply number_range in He. lia.
+Qed.
+Lemma blk_row_range off m n i x : 0 <= off -> 1 <= i <= m -> In x (blk_row off n i) -> 1 <= Z.abs x <= off + m * n.
+Proof.
+  intros Ho Hi Hx. unfold blk_row in Hx. apply in_map_iff in Hx as [j [<- Hj]]. apply In_upto in Hj.
+  pose proof (bvar_range off m n i j Hi Hj). lia.
+Qed.
+Lemma blk_col_range off m n j x : 0 <= off -> 1 <= j <= n -> In x (blk_col off m n j) -> 1 <= Z.abs x <= off + m * n.
+Proof.
+  intros Ho Hj Hx. unfold blk_col in Hx. apply in_map_iff in Hx as [i [<- Hi]]. apply In_upto in Hi.
+  pose proof (bvar_range off m n i j Hi Hj). lia.
+Qed.
